@@ -254,6 +254,30 @@ def trimWhite (ts : List Tok) : List Tok := ((ts.dropWhile isWhite).reverse.drop
 /-- comments and `;` removed, outer whitespace trimmed -/
 def essence (ts : List Tok) : List Tok := trimWhite (ts.filter isCodeTok)
 
+/-- a token that is neither blank, nor comment, nor `;` -/
+def isSubst (t : Tok) : Bool := !isWhite t && !isComment t && !isSemi t
+
+/-- blank, comment or `;`: what may stand between statements -/
+def isNoise (t : Tok) : Bool := isWhite t || isComment t || isSemi t
+
+/-! ### scripts assembled from statements and separator noise (the quantifier of the property) -/
+
+/-- `[(statement, separator after it), …]` -/
+def body : List (List Tok × List Tok) → List Tok
+  | [] => []
+  | p :: r => p.1 ++ p.2 ++ body r
+
+def scriptToks (lead : List Tok) (items : List (List Tok × List Tok)) : List Tok := lead ++ body items
+
+/-- a statement: no top‑level `;`, at least one token that is not blank / comment -/
+def stmtOk (s : List Tok) : Bool := s.all (fun t => !isSemi t) && s.any isSubst
+
+/-- every separator but the last contains a `;` -/
+def sepsOk : List (List Tok × List Tok) → Bool
+  | [] => true
+  | [_] => true
+  | p :: q :: r => p.2.any isSemi && sepsOk (q :: r)
+
 /-! ### the restriction `level0` (see the header) -/
 
 def charOk (c : Char) : Bool :=
@@ -304,6 +328,12 @@ def parenOk : Nat → Nat → List Tok → Bool
 def level0 (ts : List Tok) : Bool :=
   (render ts).all charOk && ts.all (fun t => match t with | .junk _ => false | _ => true) && adjAll ts
     && ts.all notHint && (words ts).all (fun w => !badWord w) && parenOk 0 0 ts
+
+/-- the hypotheses of `Props.C05.split_render`, as one decidable predicate (also evaluated by the driver for every
+    generated script): canonical tokens, inside `level0`, noise only around the statements, `;` between them -/
+def scriptHyp (lead : List Tok) (items : List (List Tok × List Tok)) : Bool :=
+  wf (scriptToks lead items) && level0 (scriptToks lead items) && lead.all isNoise
+    && items.all (fun p => stmtOk p.1 && p.2.all isNoise) && sepsOk items
 
 /-! ### the runner's evaluation loop (`runner.py:185‑218`), over abstract analysis / assembly
 
